@@ -18,8 +18,9 @@ for _a in ("_check_directory_structure_validity", "_make_path_function", "_make_
 CODE = ["signac.import_export._check_directory_structure_validity", "signac.import_export._export_jobs/_make_path_function/_make_schema_based_path_function/_check_path_function_unique",
         "signac.import_export._analyze_zipfile_for_import/_CopyFromZipFileExecutor", "signac.import_export._convert_schema_path_to_regex/RE_TYPES/_convert_bool"]
 BOUNDS = {"leafnode": "3 relative paths of 1-3 segments over {a, b, ab, a.5}, every order", "pathmap": "2-3 jobs, state points {a: v} / {a: v, ab: w} / {a: {b: v}} with v from the textually colliding domain "
-          "{1, 10, 1.0, '1', True, 'True', '1/x'}, path spec None / '{a}' style strings / '{{auto}}' variants", "zip": "2-3 job roots over {a/1, a/10, a/1x, a/1/2, b}, members = state point file + one data file (+ nested)"}
-OUTSIDE = ["compression codecs (C code)", "tar member analysis as a kernel (covered by the E4 round trip)", "more than 3 jobs in kernels"]
+          "{1, 10, 1.0, '1', True, 'True', '1/x'}, path spec None / '{a}' style strings / '{{auto}}' variants", "import with schema": "every pair of jobs over {a: 1 | 10 | 1.0 | '1' | True | False} exported with automatic paths to {directory, zip, tar} and imported with a schema string a/{a[:int|float|bool]} "
+          "or a callable that re-labels one directory with any state point of the universe", "import, non-unique": "2-3 directories without state point files named 1/01, 7/07/8, 3/4/04 or 1/2 below a/, as directory / zip / tar, schema 'a/{a:int}' or an equivalent callable", "zip": "2-3 job roots over {a/1, a/10, a/1x, a/1/2, b}, members = state point file + one data file (+ nested)"}
+OUTSIDE = ["schema strings whose field type does not match the exported values: directories that do not match are skipped silently (only 'no corrupted or merged job, no copy before an error' is claimed for them)", "compression codecs (C code)", "tar member analysis as a kernel (covered by the E4 round trip)", "more than 3 jobs in kernels"]
 STUBS = ["job stand-ins with id/sp()/statepoint/path for the export kernels; stub ZipFile (namelist/read) and in-memory open()/_mkdir_p for the zip kernel"]
 ASSUMPTIONS = []
 
@@ -400,8 +401,162 @@ def h_roundtrip(mask: int, ti: int, si: int, schema_kind: int, deepsp: bool):
     assert not problems
 
 
+# ---------------------------------------------------------------------------------------------- E4: import with a schema (string / callable)
+IS_U = [{"a": 1}, {"a": 10}, {"a": 1.0}, {"a": "1"}, {"a": True}, {"a": False}]
+IS_T = ["out", "out.zip", "out.tar"]
+IS_S = ["a/{a:int}", "a/{a:float}", "a/{a}", "a/{a:bool}"]
+IS_TYPES = [int, float, str, bool]
+
+
+def _import_schema_case(i, j, ti, sk, m):
+    """export two jobs with automatic paths, import with a schema string or a callable schema: either the imported jobs are exact copies of
+    source jobs (same id, state point, document, files) and check() passes, or the call raises and NO job has been copied"""
+    problems = []
+    with SL.Scratch() as sc:
+        src = signac.init_project(os.path.join(sc.root, "src"))
+        for k in (i, j):
+            job = src.open_job(IS_U[k]).init()
+            job.document["d"] = k
+            SL.put(job.fn("f.txt"), b"F%d" % k, SL.T_MID)
+            SL.put(job.fn("sub/n.txt"), b"N%d" % k, SL.T_MID)
+        want = _project_content(src)
+        target = os.path.join(sc.root, IS_T[ti])
+        try:
+            src.export_to(target)
+        except Exception:  # noqa  (non-unique automatic paths are rejected: nothing to import)
+            return problems, "no-export"
+        dst = signac.init_project(os.path.join(sc.root, "dst"))
+        if sk < 4:
+            schema = IS_S[sk]
+            matching = all(type(IS_U[k]["a"]) is IS_TYPES[sk] for k in (i, j))
+        else:
+            idi = src.open_job(IS_U[i]).id
+
+            def schema(path):
+                fn = os.path.join(path, "signac_statepoint.json")
+                if os.path.isfile(fn):
+                    with open(fn) as f_:
+                        sp = json.load(f_)
+                    return dict(IS_U[m]) if signac.job.calc_id(sp) == idi else sp
+            matching = (m == i)
+            if ti != 0:
+                return problems, "callable-needs-directory"
+        try:
+            dst.import_from(target, schema=schema)
+            out = "ok"
+        except Exception as e:  # noqa
+            out = type(e).__name__
+        dirs = sorted(os.listdir(dst.workspace))
+        if out != "ok":
+            if dirs:
+                problems.append(("import raised after copying job data", out, len(dirs)))
+            if matching:
+                problems.append(("import with a matching schema raised", out))
+            return problems, out
+        try:
+            signac.get_project(dst.path, search=False).check()
+        except Exception as e:  # noqa
+            problems.append(("imported project fails check()", type(e).__name__))
+            return problems, out
+        got = _project_content(signac.get_project(dst.path, search=False))
+        for jid, c in got.items():
+            if want.get(jid) != c:
+                problems.append(("imported job is not an exact copy of a source job", jid, c[0]))
+        if matching and got != want:
+            problems.append(("matching schema: not all jobs imported", sorted(got), sorted(want)))
+    return problems, out
+
+
+def h_import_schema(i: int, j: int, ti: int, sk: int, m: int):
+    assert 0 <= i < j <= 5 and 0 <= ti <= 2 and 0 <= sk <= 4 and 0 <= m <= 5 and (sk == 4 or m == 0) and (sk < 4 or ti == 0) and part_ok(i * 6 + j)
+    fresh_path()
+    i, j, ti, sk, m = ci(i, 0, 5), ci(j, 0, 5), ci(ti, 0, 2), ci(sk, 0, 4), ci(m, 0, 5)
+    with nt():
+        problems, out = _import_schema_case(i, j, ti, sk, m)
+    reached()
+    assert not problems
+
+
+def h_import_schema__reach(i: int, j: int, ti: int, sk: int, m: int):
+    assert 0 <= i < j <= 5 and 0 <= ti <= 2 and 0 <= sk <= 4 and 0 <= m <= 5 and (sk == 4 or m == 0) and (sk < 4 or ti == 0)
+    i, j, ti, sk, m = ci(i, 0, 5), ci(j, 0, 5), ci(ti, 0, 2), ci(sk, 0, 4), ci(m, 0, 5)
+    with nt():
+        problems, out = _import_schema_case(i, j, ti, sk, m)
+    assert out in ("ok", "no-export", "callable-needs-directory")  # twin: an import refused with an exception is reachable
+
+
+IF_NAMES = [["1", "01"], ["1", "2"], ["7", "07", "8"], ["3", "4", "04"]]
+
+
+def _import_foreign_case(ni, ti, sk):
+    """a data space NOT written by signac (no state point files) imported with a schema: directories that the schema maps to one and the
+    same job are rejected before anything is copied (a later directory must never be merged into / overwrite the job of an earlier one)"""
+    import zipfile, tarfile
+    problems = []
+    names = IF_NAMES[ni]
+    with SL.Scratch() as sc:
+        root = os.path.join(sc.root, "data")
+        for n in names:
+            SL.put(os.path.join(root, "a", n, "f.txt"), n.encode(), SL.T_MID)
+            SL.put(os.path.join(root, "a", n, "only_" + n), b"x", SL.T_MID)
+        if ti == 0:
+            origin = root
+        elif ti == 1:
+            origin = os.path.join(sc.root, "d.zip")
+            with zipfile.ZipFile(origin, "w") as z:
+                for n in names:
+                    z.write(os.path.join(root, "a", n, "f.txt"), "a/%s/f.txt" % n)
+                    z.write(os.path.join(root, "a", n, "only_" + n), "a/%s/only_%s" % (n, n))
+        else:
+            origin = os.path.join(sc.root, "d.tar")
+            with tarfile.open(origin, "w") as t:
+                t.add(os.path.join(root, "a"), "a")
+        dst = signac.init_project(os.path.join(sc.root, "dst"))
+        if sk == 0:
+            schema = "a/{a:int}"
+        else:
+            def schema(path):
+                b = os.path.basename(path)
+                if b in names:
+                    return {"a": int(b)}
+        try:
+            dst.import_from(origin, schema=schema)
+            out = "ok"
+        except Exception as e:  # noqa
+            out = type(e).__name__
+        got = {d: sorted(os.listdir(os.path.join(dst.workspace, d))) for d in os.listdir(dst.workspace)}
+        dup = len({int(n) for n in names}) < len(names)
+        if out != "ok":
+            if got:
+                problems.append(("import raised after copying job data", out, got))
+            if not dup:
+                problems.append(("import of distinct directories raised", out))
+        else:
+            if dup:
+                problems.append(("two origin directories were imported into one job", got))
+            for n in names:
+                holders = [d for d, fl in got.items() if "only_" + n in fl]
+                if len(holders) != 1 or any(("only_" + o) in got[holders[0]] for o in names if o != n):
+                    problems.append(("origin directory not imported into a job of its own", n, got))
+                elif open(os.path.join(dst.workspace, holders[0], "f.txt"), "rb").read() != n.encode():
+                    problems.append(("file content of an imported directory replaced", n))
+    return problems, out
+
+
+def h_import_foreign(ni: int, ti: int, sk: int):
+    assert 0 <= ni <= 3 and 0 <= ti <= 2 and 0 <= sk <= 1
+    fresh_path()
+    ni, ti, sk = ci(ni, 0, 3), ci(ti, 0, 2), ci(sk, 0, 1)
+    with nt():
+        problems, out = _import_foreign_case(ni, ti, sk)
+    reached()
+    assert not problems
+
+
 HARNESSES = [
     dict(name="h_roundtrip", timeout=(900, 3000), parts=(16, 32), unblock=True),
+    dict(name="h_import_foreign", timeout=(300, 600), unblock=True),
+    dict(name="h_import_schema", twin="h_import_schema__reach", timeout=(600, 1200), parts=(4, 4), unblock=True),
     dict(name="h_leafnode", twin="h_leafnode__reach", timeout=(600, 1500), parts=(16, 16)),
     dict(name="h_pathmap", twin="h_pathmap__reach", timeout=(400, 1500), parts=(14, 28), unblock=True),
     dict(name="h_zipskip", twin="h_zipskip__reach", timeout=(300, 600), unblock=True),
@@ -507,7 +662,7 @@ def extra_checks(tier_):
             t = m.group("type") or "str"
             val = witness_of[t][len(expect) % len(witness_of[t])]
             concrete += val
-            expect[m.group("key")] = {"int": int, "float": float, "bool": IE._convert_bool, "str": str}[t](val)
+            expect[m.group("key")] = {"int": int, "float": float, "bool": lambda v: {"true": True, "false": False, "1": True, "0": False}[v.lower()], "str": str}[t](val)
             idx = m.end()
         concrete += schema[idx:]
         got = fn(concrete)
